@@ -243,6 +243,41 @@ def do_replay(prop, path):
     return 0
 
 
+DEFAULT_OUTSIDE = [
+    "definitions outside the families listed under bounds (catalogue in vt/defs.py and the solver-enumerated families of C14/C15/C16/C20)",
+    "histories with more completion events than the per-family bound (max_completion_events), more than one pause/cancel/rerun request, or more crash points than the policy states",
+    "provider behaviour outside the contract A1-A5, except where a family's policy relaxes it (lazy_start, intermediate, requested_first)",
+    "values of published variables other than the taint tokens / constants of the catalogue (value classes are covered by the E1 lemmas and the C16 catalogue only)",
+    "E1 lemmas: container sizes beyond the stated ones (3 inbound tasks, 4 items); integers are unbounded",
+    "anything a worker did not finish within its timeout is reported as HARNESS-ERROR, never as held",
+]
+
+
+def derived_bounds(results):
+    """Bounds as registered: per obligation family the definition, the maximal number of completion
+    events, the policy of the environment and the number of workers the family is partitioned into."""
+    fam = {}
+    for r in results:
+        o = r["ob"]
+        p = o.get("params") or {}
+        base = o["id"].split("#")[0].split("@")[0]
+        f = fam.setdefault(base, {"kind": o["kind"], "harness": o["body"], "workers": 0, "worker_timeout_s": o.get("timeout")})
+        f["workers"] += 1
+        if o["kind"] == "e2c":
+            if "did" in p:
+                f["definition"] = p["did"]
+            if "steps" in p:
+                f["max_completion_events"] = p["steps"]
+            pol = {k: v for k, v in p.items() if k not in ("did", "steps") and v not in (False, None)}
+            if pol:
+                f["policy"] = pol
+            if o.get("fixed"):
+                f.setdefault("partitioned_by", sorted(o["fixed"]))
+        else:
+            f["params"] = p
+    return fam
+
+
 def write_evidence(mod, prop, tier, seed, results, violations, harness_errors, unconfirmed, known_lines, known_hit, replays_done, wall):
     level = getattr(mod, "LEVEL", "model_checking")
     paths = sum(int(r.get("paths") or 0) for r in results)
@@ -273,8 +308,8 @@ def write_evidence(mod, prop, tier, seed, results, violations, harness_errors, u
         "exhaustive": all(r["verdict"] in ("confirmed", "twin-ok") for r in results),
         "explanation": getattr(mod, "EXPLANATION", "bounded solver-based checking of the real code with CrossHair/z3; see obligations"),
         "functions_encoded": getattr(mod, "FUNCTIONS", []),
-        "bounds": getattr(mod, "BOUNDS", {}).get(tier, getattr(mod, "BOUNDS", {})),
-        "outside_claim": getattr(mod, "OUTSIDE", []),
+        "bounds": getattr(mod, "BOUNDS", None) or derived_bounds(results),
+        "outside_claim": getattr(mod, "OUTSIDE", None) or DEFAULT_OUTSIDE,
         "obligations_detail": obligations,
         "obligations": len(results),
         "discharged": sum(1 for r in results if r["verdict"] in ("confirmed", "twin-ok")),
@@ -294,9 +329,10 @@ def write_evidence(mod, prop, tier, seed, results, violations, harness_errors, u
         "coverage": cov,
         "assumptions": getattr(mod, "ASSUMPTIONS", []) + [
             "A1 API calls serialised by the caller",
-            "A2 every offered task/item is marked running before any other event; get_next_tasks() is called after every event",
+            "A2 every offered task/item is marked running before any other event (relaxed in the obligations whose policy has lazy_start); get_next_tasks() is called after every event",
             "A3 an action reports a completed status at most once",
             "A4 with-items results accumulated by item index",
+            "A5 (obligations on vt.harness.A5 only) an action that reports paused/pending is held, resumed or answered by the provider once everything else has come to rest",
             "CrossHair 0.0.110 / z3: 'Confirmed over all paths' taken as exhaustive over the solver-feasible decisions within the stated bounds",
         ],
         "wall_s": round(wall, 3),
